@@ -13,6 +13,7 @@ package limit
 import (
 	"context"
 	"fmt"
+	"runtime"
 	"sort"
 	"strings"
 	"sync"
@@ -31,7 +32,7 @@ import (
 func c08Setup(t *testing.T) ([]kit.Case, *kit.Reporter, int, int) {
 	logx.Disable()
 	// C01 is not under test here: the breaker inside redis.Redis never rejects
-	mathx.SetVerifCoin(c08Coin)
+	mathx.SetVerifCoin(func(float64) (bool, bool) { return false, true })
 	cases, err := kit.LoadCases(kit.Env("VERIF_CASES", ""))
 	if err != nil {
 		t.Fatal(err)
@@ -42,31 +43,6 @@ func c08Setup(t *testing.T) ([]kit.Case, *kit.Reporter, int, int) {
 	}
 	return cases, rep, kit.EnvInt("VERIF_SHARD", 0), kit.EnvInt("VERIF_SHARDS", 1)
 }
-
-// c08Coin is the breaker's coin.  Mode 0 (all replay stages): never reject.  Mode 1 (storm phase of
-// the concurrent stage): accept one consultation per 3 ms and reject the others, so that right after
-// the monitor's ping has been let through the callers' script calls fail at once, without a network
-// round trip - the situation of a half-open breaker in production.
-var (
-	c08CoinMode   atomic.Int32
-	c08LastAccept atomic.Int64
-)
-
-func c08Coin(float64) (bool, bool) {
-	if c08CoinMode.Load() == 0 {
-		return false, true
-	}
-	now := time.Now().UnixNano()
-	last := c08LastAccept.Load()
-	if now-last > int64(3*time.Millisecond) && c08LastAccept.CompareAndSwap(last, now) {
-		c08CoinAccepts.Add(1)
-		return false, true
-	}
-	c08CoinRejects.Add(1)
-	return true, true
-}
-
-var c08CoinAccepts, c08CoinRejects atomic.Int64
 
 func c08CodeName(code int) string {
 	switch code {
@@ -290,17 +266,30 @@ func TestVerifC08Align(t *testing.T) {
 
 // TestVerifC08Concurrent: the mechanism model spec/TokenMonitorImpl.tla says that, whatever the
 // interleaving of failing callers and the monitor, the limiter is never left in fallback mode with
-// nobody to bring it back (NoDeadFallback / Return).  This stage looks for such a state on the
-// real limiter: rounds of {Down; K goroutines per limiter hammer Allow(); Up while their calls
-// are still failing; keep hammering; quiesce}, several limiters side by side, and after every round
-// each limiter must reach Redis again (an EVAL with its key seen by the server's pre-hook).
-// The bound is generous (pings come every 100 ms): a limiter that is stuck stays stuck for good.
+// nobody to bring it back (NoDeadFallback / Return).  This stage looks for such a state on the real
+// limiter.  One round: several fresh limiters side by side; Redis goes down (connections dropped),
+// K goroutines per limiter call Allow(); Redis comes up while calls are still failing; quiesce;
+// then every limiter must reach Redis again (an EVAL with its key seen by the server's pre-hook)
+// within a generous bound - a limiter that is stuck stays stuck for good.
+//
+// The interleaving that the model singles out as the critical one (its counterexample for the
+// hoisted-store variant) is a script call that fails *late*: RetFail lands between the monitor's
+// MonStore1 (redisAlive := 1) and MonClear (monitorStarted := false), a window of well under a
+// microsecond on the real code.  Natural traffic practically never lands there, so each limiter
+// also gets one "late failure" injected at that point: a goroutine that watches redisAlive and, the
+// moment the monitor has set it, runs the failure handling of reserveN (startMonitor) - exactly
+// what a call issued before the outage does when its last retry fails at that instant.
 func TestVerifC08Concurrent(t *testing.T) {
 	cases, rep, _, _ := c08Setup(t)
 	defer rep.Close()
 	cfg := cases[0].Steps[0]
 	rounds, nlim, k := kit.Num(cfg["rounds"]), kit.Num(cfg["limiters"]), kit.Num(cfg["k"])
-	storm := time.Duration(kit.Num(cfg["storm_ms"])) * time.Millisecond
+	if p := runtime.GOMAXPROCS(0) - 2; nlim > p {
+		nlim = p // the watchers spin: leave processors for the monitors and the server
+	}
+	if nlim < 1 {
+		nlim = 1
+	}
 	s, err := miniredis.Run()
 	if err != nil {
 		t.Fatal(err)
@@ -314,22 +303,16 @@ func TestVerifC08Concurrent(t *testing.T) {
 		tl   *TokenLimiter
 	}
 	lims := make([]lim, nlim)
-	for i := range lims {
-		lims[i].name = fmt.Sprintf("cc%d", i)
-		lims[i].tl = NewTokenLimiter(1000, 1000, store, lims[i].name)
-	}
 	v := kit.Verdict{Case: 0, OK: true}
-	defer func() { c08CoinMode.Store(0) }()
 rounds:
 	for r := 0; r < rounds; r++ {
-		// every limiter uses Redis at the start of the round
-		for _, l := range lims {
-			l.tl.Allow()
+		for i := range lims {
+			lims[i].name = fmt.Sprintf("cc%d.%d", r, i)
+			lims[i].tl = NewTokenLimiter(1000, 1000, store, lims[i].name)
+			lims[i].tl.Allow() // uses Redis
 		}
 		var stop atomic.Bool
-		var wg sync.WaitGroup
-		// Down: connections are dropped; the callers' calls (issued while redisAlive = 1) fail after
-		// go-redis' retries, the first failure of each limiter starts its monitor
+		var wg, late sync.WaitGroup
 		cs.kill.Store(true)
 		for _, l := range lims {
 			for j := 0; j < k; j++ {
@@ -338,18 +321,42 @@ rounds:
 					defer wg.Done()
 					for !stop.Load() {
 						tl.Allow()
+						time.Sleep(200 * time.Microsecond)
 					}
 				}(l.tl)
 			}
 		}
-		time.Sleep(time.Duration(20+(r*37)%130) * time.Millisecond)
-		// Up, and the storm: pings get through, script calls are mostly refused by the breaker
-		c08CoinMode.Store(1)
-		cs.kill.Store(false)
-		time.Sleep(storm)
+		// every limiter has noticed the outage and runs its monitor
+		for _, l := range lims {
+			tl := l.tl
+			if !kit.WaitFor(10*time.Second, func() bool { return atomic.LoadUint32(&tl.redisAlive) == 0 }) {
+				stop.Store(true)
+				wg.Wait()
+				v = kit.Verdict{Case: 0, Infra: true, Msg: "limiter did not notice the outage within 10 s"}
+				break rounds
+			}
+		}
+		// the late failures: wait for the monitor's redisAlive := 1, then handle a failed call
+		for _, l := range lims {
+			late.Add(1)
+			go func(tl *TokenLimiter) {
+				defer late.Done()
+				deadline := time.Now().Add(10 * time.Second)
+				for i := 0; atomic.LoadUint32(&tl.redisAlive) == 0; i++ {
+					if i&0xfffff == 0 && time.Now().After(deadline) {
+						return
+					}
+				}
+				tl.startMonitor()
+				rep.Count("late-failures-injected", 1)
+			}(l.tl)
+		}
+		time.Sleep(time.Duration(10+(r*37)%90) * time.Millisecond)
+		cs.kill.Store(false) // Up
+		late.Wait()
+		time.Sleep(50 * time.Millisecond)
 		stop.Store(true)
 		wg.Wait()
-		c08CoinMode.Store(0)
 		v.Steps++
 		rep.Count("rounds", 1)
 		for _, l := range lims {
@@ -369,7 +376,7 @@ rounds:
 					break rounds
 				}
 				v.OK, v.Step, v.Key = false, r, "C08:token:no-return:concurrent"
-				v.Msg = fmt.Sprintf("round %d (%d limiters x %d callers; Redis down, then up while calls were still failing): limiter %s "+
+				v.Msg = fmt.Sprintf("round %d (%d limiters x %d callers; Redis down, up again, one call per limiter failing late): limiter %s "+
 					"did not send a request to Redis for 8 s although Redis answers (redisAlive=%d, monitorStarted=%v); "+
 					"specification TokenMonitorImpl!NoDeadFallback / Return",
 					r, nlim, k, l.name, atomic.LoadUint32(&l.tl.redisAlive), l.tl.monitorStarted)
@@ -378,9 +385,6 @@ rounds:
 			rep.Count("returns", 1)
 		}
 	}
-	rep.Count("storm.coin-accepts", int(c08CoinAccepts.Load()))
-	rep.Count("storm.coin-rejects", int(c08CoinRejects.Load()))
-	rep.Count("pings", int(cs.pings.Load()))
 	rep.Put(v)
 }
 
